@@ -255,6 +255,9 @@ class Engine(MemMixin, OpsMixin, ExecMixin):
         adt, t = self.adt_info(ty)
         if adt is not None and adt["kind"] == "Enum":
             return adt["variants"][vidx]["discr"]
+        tt = self.T(ty) if isinstance(ty, int) else None
+        if (tt is not None and tt.get("k") == "adt" and str(tt.get("name", "")).endswith("cmp::Ordering")) or ty == "std::cmp::Ordering":
+            return vidx - 1        # Less = -1, Equal = 0, Greater = 1 (std, not dumped with the crate's own types)
         return vidx
 
     def variant_of_discr(self, ty, d):
@@ -267,6 +270,9 @@ class Engine(MemMixin, OpsMixin, ExecMixin):
         return d
 
     def discr_is_idx(self, ty):
+        tt_ = self.T(ty) if isinstance(ty, int) else None
+        if (tt_ is not None and tt_.get("k") == "adt" and str(tt_.get("name", "")).endswith("cmp::Ordering")) or ty == "std::cmp::Ordering":
+            return False
         adt, t = self.adt_info(ty)
         if adt is not None and adt["kind"] == "Enum":
             return all(v["discr"] == v["idx"] for v in adt["variants"])
